@@ -296,8 +296,6 @@ def judge(case, obs: Obs):
                 s = pend_ok[0]
                 fails.append(Failure("raise:while-twin-pending-that-would-succeed",
                                      f"raised {obs.exc!r} while submission {s.subno} of input {i} was still pending (due t={s.fire_time}) and scripted to succeed"))
-    if obs.loop_reports:
-        fails.append(Failure("loop-exception-report", obs.loop_reports[0][:300]))
 
     # labels / non-triviality (from what really happened)
     any_failed_attempt = any(s.fired and (s.attempts > 1 or not s.ok) for s in pool.subs)
@@ -337,6 +335,9 @@ def judge(case, obs: Obs):
 
 def check_script(case) -> Outcome:
     obs = run_script(case)
+    if obs.loop_reports:
+        # an exception inside a raw loop callback can only come from the harness (cubed's code runs inside the task)
+        raise core.HarnessError("event loop exception report: " + obs.loop_reports[0][:300])
     fails, labels, nt = judge(case, obs)
     # one Failure per bucket
     seen, uniq = set(), []
